@@ -123,6 +123,15 @@ fn verif_grid() {
             });
         }
     }
+    // rows of several columns are equal only column by column
+    g.case("distinct-rows-of-two-columns", || {
+        let def = "CREATE TABLE t(line = '^a=(\\\\w+) b=(\\\\w+) m=([0-9]+) n=([0-9]+)$', line[1] => a TEXT, line[2] => b TEXT, line[3] => m INT, line[4] => n INT);";
+        let lines = ["a=x b=y m=1 n=2", "a=y b=x m=2 n=1", "a=x b=x m=1 n=1", "a=y b=y m=2 n=2", "a=x b=y m=1 n=2"];
+        for (query, want) in [("SELECT DISTINCT a, b FROM t", 4), ("SELECT DISTINCT m, n FROM t", 4), ("SELECT DISTINCT a, m FROM t", 2), ("SELECT a, b, COUNT(*) AS c FROM t GROUP BY a, b", 4), ("SELECT DISTINCT m + n AS s, m - n AS d FROM t", 4)] {
+            match q(def, query, &lines) { Outcome::Lines(l, _) => if l.len() != want { return Err(format!("{} over {:?} printed {} rows ({:?}); {} different rows exist", query, lines, l.len(), l, want)); }, other => return Err(format!("{}: {:?}", query, other)) }
+        }
+        Ok(())
+    });
     // numbers compare by numeric value
     for (i, (a, b, lt)) in [("2", "10", true), ("-2", "-10", false), ("9007199254740992", "9007199254740993", true)].iter().enumerate() {
         let kind = Kind { name: "int", ty: "INT", pattern: "[^|]*", values: vec![] };
